@@ -8,6 +8,11 @@ package main
 //  which=1  source-id pool: case = (op ...), op = -1 (a request starts) | k (k-th running request ends)
 //                                                                            obs = (id of each start ...)
 //  which=3  concurrent requests: case = (((read ...) ...) (order ...))      obs = (((event ...) status) ...)
+//  which=4  gzip request history on one plugin (see c11ExecHistory)
+//  which=5  as which=0, a read may also be (1 #bytes) = bytes returned together with io.EOF, or (2 #bytes) = bytes
+//           returned together with a non-EOF error (thresholds.go)
+//  which=6  gzip request history with failing bodies of every kind (thresholds.go)
+//  which=7  phases of concurrent requests on one plugin: warm pools (thresholds.go)
 
 import (
 	"bytes"
@@ -78,9 +83,15 @@ func c11Plugin() (*httpin.Plugin, *c11Ctl) {
 
 // scripted body: yields the reads of the case, one per Read call (a read longer than the
 // caller's buffer is continued on the next call — the model is chunking-independent by theorem).
+type c11Rd struct {
+	b []byte
+	k int // 0: (n, nil) | 1: (0, errC11) | 2: data, io.EOF with its last part | 3: data, errC11 with its last part
+}
+
 type c11Body struct {
-	reads [][]byte // nil entry = error
+	reads []c11Rd
 	cur   []byte
+	curK  int
 	gate  func() // called before each scripted read is started
 }
 
@@ -96,37 +107,79 @@ func (b *c11Body) Read(p []byte) (int, error) {
 		}
 		r := b.reads[0]
 		b.reads = b.reads[1:]
-		if r == nil {
+		if r.k == 1 {
 			return 0, errC11
 		}
-		if len(r) == 0 {
+		if r.k >= 2 {
+			b.reads = nil // data came with io.EOF / an error: the body has ended
+		}
+		if len(r.b) == 0 {
+			switch r.k {
+			case 2:
+				return 0, io.EOF
+			case 3:
+				return 0, errC11
+			}
 			return 0, nil
 		}
-		b.cur = r
+		b.cur, b.curK = r.b, r.k
 	}
 	n := copy(p, b.cur)
 	b.cur = b.cur[n:]
+	if len(b.cur) == 0 {
+		switch b.curK {
+		case 2:
+			return n, io.EOF
+		case 3:
+			return n, errC11
+		}
+	}
 	return n, nil
 }
 func (b *c11Body) Close() error { return nil }
 
-func c11Reads(cs hx.Sx) [][]byte {
-	var reads [][]byte
+func c11Reads(cs hx.Sx) []c11Rd {
+	var reads []c11Rd
 	for _, r := range hx.Items(cs) {
-		if hx.IsInt(r) {
-			reads = append(reads, nil)
-		} else {
+		switch {
+		case hx.IsInt(r):
+			reads = append(reads, c11Rd{k: 1})
+		case hx.IsList(r):
+			it := hx.Items(r)
+			b := hx.Bytes(it[1])
+			if b == nil {
+				b = []byte{}
+			}
+			reads = append(reads, c11Rd{b: b, k: 1 + int(hx.Int(it[0]))})
+		default:
 			b := hx.Bytes(r)
 			if b == nil {
 				b = []byte{}
 			}
-			reads = append(reads, b)
+			reads = append(reads, c11Rd{b: b})
 		}
 	}
 	return reads
 }
 
-func c11Serve(p *httpin.Plugin, body io.ReadCloser, gz bool) int {
+// gzip member holding the data of the reads
+func c11Gz(reads []c11Rd) []byte {
+	var zb bytes.Buffer
+	zw := gzip.NewWriter(&zb)
+	for _, r := range reads {
+		zw.Write(r.b)
+	}
+	zw.Close()
+	return zb.Bytes()
+}
+
+// a panic of the code under test is an observable (status -1), it must not take the harness down
+func c11Serve(p *httpin.Plugin, body io.ReadCloser, gz bool) (code int) {
+	defer func() {
+		if recover() != nil {
+			code = -1
+		}
+	}()
 	req := httptest.NewRequest(http.MethodPost, "/", nil)
 	req.Body = body
 	if gz {
@@ -147,7 +200,7 @@ var (
 
 func c11Exec(which int, cs hx.Sx) hx.Sx {
 	switch which {
-	case 0, 2:
+	case 0, 2, 5:
 		// one shared plugin across sequential cases: buffers and source ids get reused between
 		// requests, exactly the reuse pattern the property quantifies over
 		c11Mu.Lock()
@@ -162,13 +215,7 @@ func c11Exec(which int, cs hx.Sx) hx.Sx {
 		reads := c11Reads(cs)
 		var body io.ReadCloser = &c11Body{reads: reads}
 		if which == 2 {
-			var zb bytes.Buffer
-			zw := gzip.NewWriter(&zb)
-			for _, r := range reads {
-				zw.Write(r)
-			}
-			zw.Close()
-			body = io.NopCloser(bytes.NewReader(zb.Bytes()))
+			body = io.NopCloser(bytes.NewReader(c11Gz(reads)))
 		}
 		code := c11Serve(c11P, body, which == 2)
 		var evs [][]byte
@@ -205,7 +252,7 @@ func c11Exec(which int, cs hx.Sx) hx.Sx {
 				}
 				ctl.mu.Unlock()
 				n := 0
-				body := &c11Body{reads: [][]byte{[]byte("x\n"), []byte("y\n")}}
+				body := &c11Body{reads: []c11Rd{{b: []byte("x\n")}, {b: []byte("y\n")}}}
 				body.gate = func() {
 					n++
 					if n == 2 {
@@ -231,82 +278,11 @@ func c11Exec(which int, cs hx.Sx) hx.Sx {
 	case 3:
 		p, ctl := c11Plugin()
 		it := hx.Items(cs)
-		reqs := hx.Items(it[0])
-		order := hx.Items(it[1])
-		n := len(reqs)
-		// turn-taking: request i may start its next scripted read only when it is at the head of
-		// `order` (entries naming finished requests are skipped)
-		var mu sync.Mutex
-		cond := sync.NewCond(&mu)
-		pos := 0
-		finished := make([]bool, n)
-		advance := func() {
-			for pos < len(order) && finished[int(hx.Int(order[pos]))%n] {
-				pos++
-			}
-		}
-		codes := make([]int, n)
-		var wg sync.WaitGroup
-		for i := 0; i < n; i++ {
-			i := i
-			body := &c11Body{reads: c11Reads(reqs[i])}
-			body.gate = func() {
-				mu.Lock()
-				for {
-					advance()
-					if pos >= len(order) || int(hx.Int(order[pos]))%n == i {
-						break
-					}
-					cond.Wait()
-				}
-				if pos < len(order) {
-					pos++
-				}
-				cond.Broadcast()
-				mu.Unlock()
-			}
-			wg.Add(1)
-			go func() {
-				defer wg.Done()
-				codes[i] = c11Serve(p, body, false)
-				mu.Lock()
-				finished[i] = true
-				cond.Broadcast()
-				mu.Unlock()
-			}()
-		}
-		wg.Wait()
-		// attribute every event to a request by content: request i only uses the letter 'A'+i (plus
-		// \r), every line carries at least one letter, so a byte of another request inside an event
-		// shows mixing. (Source ids are legitimately reused by requests that do not overlap.)
-		ctl.mu.Lock()
-		defer ctl.mu.Unlock()
-		perReq := make([][][]byte, n)
-		for _, e := range ctl.log {
-			owner := -1
-			for _, c := range e {
-				if c >= 'A' && c < 'A'+byte(n) {
-					if owner == -1 {
-						owner = int(c - 'A')
-					} else if owner != int(c-'A') {
-						owner = -2
-					}
-				}
-			}
-			switch {
-			case owner >= 0:
-				perReq[owner] = append(perReq[owner], e)
-			case owner == -2:
-				perReq[0] = append(perReq[0], []byte("MIXED-BYTES"))
-			default:
-				perReq[0] = append(perReq[0], []byte("UNATTRIBUTED"))
-			}
-		}
-		out := make([]hx.Sx, n)
-		for i := range out {
-			out[i] = c11Obs(perReq[i], codes[i])
-		}
-		return hx.L(out...)
+		return c11Concurrent(p, ctl, hx.Items(it[0]), hx.Items(it[1]), 0, -1)
+	case 6:
+		return c11ExecFaults(cs)
+	case 7:
+		return c11ExecPhases(cs)
 	}
 	if which == 4 {
 		return c11ExecHistory(cs)
@@ -314,26 +290,169 @@ func c11Exec(which int, cs hx.Sx) hx.Sx {
 	panic("c11: unknown which")
 }
 
+// c11Concurrent serves the requests concurrently on p under the scripted interleaving of their reads.
+// Request i only uses the letter 'A'+base+i (plus \r).  hold >= 0: that request is parked inside controller.In at its
+// first event until every other request of the call has been answered.
+func c11Concurrent(p *httpin.Plugin, ctl *c11Ctl, reqs, order []hx.Sx, base, hold int) hx.Sx {
+	n := len(reqs)
+	ctl.mu.Lock()
+	ctl.log = nil
+	ctl.events = map[pipeline.SourceID][][]byte{}
+	ctl.mu.Unlock()
+	// turn-taking: request i may start its next scripted read only when it is at the head of
+	// `order` (entries naming finished or parked requests are skipped)
+	var mu sync.Mutex
+	cond := sync.NewCond(&mu)
+	pos := 0
+	finished := make([]bool, n)
+	var parked bool
+	advance := func() {
+		for pos < len(order) {
+			x := int(hx.Int(order[pos])) % n
+			if !finished[x] && !(parked && x == hold) {
+				break
+			}
+			pos++
+		}
+	}
+	nfinished := 0
+	holdState := 2 // 0: the held request did not reach In yet, 1: parked, 2: no parking (any more)
+	if hold >= 0 && hold < n {
+		holdState = 0
+		// the held request is started before the others and runs alone until it is parked (see below), so the In
+		// call that finds holdState == 0 is its own
+		ctl.mu.Lock()
+		ctl.onIn = func(pipeline.SourceID) {
+			mu.Lock()
+			if holdState == 0 {
+				holdState, parked = 1, true
+				cond.Broadcast()
+				for nfinished < n-1 {
+					cond.Wait()
+				}
+				holdState, parked = 2, false
+			}
+			mu.Unlock()
+		}
+		ctl.mu.Unlock()
+		defer func() { ctl.mu.Lock(); ctl.onIn = nil; ctl.mu.Unlock() }()
+	}
+	codes := make([]int, n)
+	var wg sync.WaitGroup
+	start := func(i int) {
+		body := &c11Body{reads: c11Reads(reqs[i])}
+		body.gate = func() {
+			mu.Lock()
+			for {
+				advance()
+				if pos >= len(order) || int(hx.Int(order[pos]))%n == i {
+					break
+				}
+				cond.Wait()
+			}
+			if pos < len(order) {
+				pos++
+			}
+			cond.Broadcast()
+			mu.Unlock()
+		}
+		wg.Add(1)
+		go func() {
+			defer wg.Done()
+			codes[i] = c11Serve(p, body, false)
+			mu.Lock()
+			finished[i] = true
+			nfinished++
+			cond.Broadcast()
+			mu.Unlock()
+		}()
+	}
+	if hold >= 0 && hold < n {
+		// the held request runs alone until it is parked in In (or done: a body without any event)
+		mu.Lock()
+		saved := order
+		order = nil // no turn-taking while it runs alone
+		mu.Unlock()
+		start(hold)
+		mu.Lock()
+		for !finished[hold] && !parked {
+			cond.Wait()
+		}
+		if holdState == 0 {
+			holdState = 2 // it ended without any event: nobody is parked
+		}
+		order = saved
+		mu.Unlock()
+	}
+	for i := 0; i < n; i++ {
+		if i != hold {
+			start(i)
+		}
+	}
+	wg.Wait()
+	// attribute every event to a request by content: request i only uses the letter 'A'+base+i (plus
+	// \r), every line carries at least one letter, so a byte of another request inside an event
+	// shows mixing. (Source ids are legitimately reused by requests that do not overlap.)
+	ctl.mu.Lock()
+	defer ctl.mu.Unlock()
+	perReq := make([][][]byte, n)
+	for _, e := range ctl.log {
+		owner := -1
+		for _, c := range e {
+			if c >= 'A' && c <= 'Z' {
+				o := int(c-'A') - base
+				if o < 0 || o >= n {
+					owner = -3 // a letter of an earlier phase: stale bytes out of a pooled buffer
+					break
+				}
+				if owner == -1 {
+					owner = o
+				} else if owner != o {
+					owner = -2
+				}
+			}
+		}
+		switch {
+		case owner >= 0:
+			perReq[owner] = append(perReq[owner], e)
+		case owner == -2:
+			perReq[0] = append(perReq[0], []byte("MIXED-BYTES"))
+		case owner == -3:
+			perReq[0] = append(perReq[0], []byte("STALE-BYTES"))
+		default:
+			perReq[0] = append(perReq[0], []byte("UNATTRIBUTED"))
+		}
+	}
+	out := make([]hx.Sx, n)
+	for i := range out {
+		out[i] = c11Obs(perReq[i], codes[i])
+	}
+	return hx.L(out...)
+}
+
 // which = 4: a history of gzip requests on one plugin.  case = (request ...): request = (read ...) | 1 (bad gzip header).
 // Requests run one after another, except the LAST TWO good ones, which overlap: the first of them is held inside
 // controller.In at its first event until the other one was served completely.  Request i only uses the letter 'A'+i.
 func c11ExecHistory(cs hx.Sx) hx.Sx {
-	p, ctl := c11Plugin()
-	reqs := hx.Items(cs)
-	n := len(reqs)
-	gz := func(reads [][]byte) io.ReadCloser {
-		var zb bytes.Buffer
-		zw := gzip.NewWriter(&zb)
-		for _, r := range reads {
-			zw.Write(r)
+	return c11History(hx.Items(cs), func(r hx.Sx) (io.ReadCloser, bool) {
+		if hx.IsInt(r) {
+			return io.NopCloser(bytes.NewReader([]byte("this is not a gzip stream\n"))), false
 		}
-		zw.Close()
-		return io.NopCloser(bytes.NewReader(zb.Bytes()))
-	}
+		return io.NopCloser(bytes.NewReader(c11Gz(c11Reads(r)))), true
+	})
+}
+
+// c11History serves the requests on one fresh plugin as described above; mk builds the (gzip) body of a request and
+// says whether it is a good one (complete, answered 200).
+func c11History(reqs []hx.Sx, mk func(r hx.Sx) (io.ReadCloser, bool)) hx.Sx {
+	p, ctl := c11Plugin()
+	n := len(reqs)
+	bodies := make([]io.ReadCloser, n)
 	// the two overlapping requests: the last two good ones
 	var good []int
 	for i, r := range reqs {
-		if !hx.IsInt(r) {
+		var ok bool
+		if bodies[i], ok = mk(r); ok {
 			good = append(good, i)
 		}
 	}
@@ -342,10 +461,8 @@ func c11ExecHistory(cs hx.Sx) hx.Sx {
 		ovA, ovB = good[len(good)-2], good[len(good)-1]
 	}
 	codes := make([]int, n)
-	for i, r := range reqs {
+	for i := range reqs {
 		switch {
-		case hx.IsInt(r):
-			codes[i] = c11Serve(p, io.NopCloser(bytes.NewReader([]byte("this is not a gzip stream\n"))), true)
 		case i == ovA:
 			held := make(chan struct{})
 			release := make(chan struct{})
@@ -361,12 +478,15 @@ func c11ExecHistory(cs hx.Sx) hx.Sx {
 			}
 			ctl.mu.Unlock()
 			doneA := make(chan struct{})
-			go func() { codes[ovA] = c11Serve(p, gz(c11Reads(reqs[ovA])), true); close(doneA) }()
+			go func() { codes[ovA] = c11Serve(p, bodies[ovA], true); close(doneA) }()
 			select {
 			case <-held:
-			case <-doneA: // no event at all (empty body)
+			case <-doneA: // no event at all (empty body, or the code under test lost them): nobody may be parked
+				ctl.mu.Lock()
+				ctl.onIn = nil
+				ctl.mu.Unlock()
 			}
-			codes[ovB] = c11Serve(p, gz(c11Reads(reqs[ovB])), true)
+			codes[ovB] = c11Serve(p, bodies[ovB], true)
 			close(release)
 			<-doneA
 			ctl.mu.Lock()
@@ -375,7 +495,7 @@ func c11ExecHistory(cs hx.Sx) hx.Sx {
 		case i == ovB:
 			// served inside the previous step
 		default:
-			codes[i] = c11Serve(p, gz(c11Reads(r)), true)
+			codes[i] = c11Serve(p, bodies[i], true)
 		}
 	}
 	ctl.mu.Lock()
@@ -610,10 +730,12 @@ func c11Gen(c *hmain.Ctx) {
 		}
 		c.Do("gzip-history", 4, hx.L(reqs...), true)
 	}
+	// 8. streams that cross the 16 KiB / pool / reader-history thresholds (thresholds.go)
+	c11GenThresholds(c)
 }
 
 func main() {
 	hmain.Run(&hmain.Prop{ID: "C11",
-		Rule: "exhaustive: every body over {a,b,\\n,\\r} up to the tier's length x every chunking; random bodies/chunkings incl. reads > 16KiB, empty reads, read errors, gzip, source-id scripts, scripted concurrent requests, gzip request histories (good / rejected / two overlapping large requests on one plugin). Non-trivial = body has a newline and >= 2 reads, or a read error / id script of >= 3 ops / concurrent case; distinct = distinct (sub-model, case) text.",
+		Rule: "exhaustive: every body over {a,b,\\n,\\r} up to the tier's length x every chunking; random bodies/chunkings incl. reads > 16KiB, empty reads, read errors, gzip, source-id scripts, scripted concurrent requests, gzip request histories (good / rejected / two overlapping large requests on one plugin); reads returning data together with io.EOF / an error (exhaustive up to length 4|6 + random), newlines at the 16 KiB read-buffer boundary, phases of concurrent requests over warm pools, gzip histories with truncated / corrupted / multi-member / chunked bodies. Non-trivial = body has a newline and >= 2 reads, or a read error / id script of >= 3 ops / concurrent case; distinct = distinct (sub-model, case) text.",
 		Gen:  c11Gen, Exec: c11Exec})
 }
